@@ -12,7 +12,7 @@ CASE_T = "C13.Corr.case"
 PROPS = ["C13/Props.v"]
 KIND = {0: "Python", 1: "Any", 2: "Disallow", 3: "ReadOnly", 4: "Constant", 5: "Event", 6: "Typed",
         7: "dunder", 8: "no-rule", 9: "add-remove"}
-WHAT = {1: "outcome-class", 2: "value-read", 3: "stored-afterwards",
+WHAT = {1: "outcome-class", 2: "value-read", 3: "stored-afterwards (for remove_trait: a value of the removed trait or of its shadow stays behind)",
         9: "outcome not that of the trait found along the MRO (the code merges direct bases depth-first)"}
 NROOTS = 3
 
@@ -43,6 +43,8 @@ def pol_term(p):
         return C("PEvent", None if len(p) == 1 else Some(C(p[1])))
     if k in ("Any", "Constant"):
         return C("P" + k, p[1])
+    if k == "Map":
+        return C("PMap", [(a, b) for a, b in p[1]], p[2])
     return C("PTyped", C(p[1]), p[2])
 
 
@@ -80,7 +82,8 @@ def to_term(case, obs):
     classes = [C("mkClass", [(name_term(n), pol_term(p)) for n, p in cd["decls"]], [Nat(b) for b in cd["bases"]])
                for cd in case["classes"]]
     nlate = case.get("nlate", 0)
-    h = [(op_term(op), C("mkObs", out_term(ob["out"]), opt(ob["stored"]))) for op, ob in zip(case["ops"], obs)]
+    h = [(op_term(op), C("mkObs", out_term(ob["out"]), opt(ob["stored"]), opt(ob["shadow"]), opt(ob["base"])))
+         for op, ob in zip(case["ops"], obs)]
     ne = sum(1 for op in case["ops"] if is_early(op))
     main = [(op[-1] == "B", t[0], t[1]) for op, t in zip(case["ops"][ne:], h[ne:])]
     return (classes[:len(classes) - nlate], Nat(case.get("precls", case["cls"])), h[:ne],
@@ -326,6 +329,37 @@ def staged_history(h, rnd, ctx, maxlen):
     return dict(h, ops=ops, nlate=nlate, precls=precls, kind=kind)
 
 
+MAPS = [["Map", [[1, 11], [2, 12]], 1], ["Map", [[2, 3], [6, 5], [3, 3]], 6]]
+MAP_VALUES = [1, 2, 3, 6, 5, 11, 12, 101, 200]
+
+
+def mapped_history(h, rnd, ctx, maxlen):
+    """add_trait / remove_trait of mapped traits (Map: shadow name_), probes of name and name_ before and after."""
+    bases = rnd.sample(["ab", "a", "b", "_a", "ba", "m", "_m", "a_b"], rnd.randint(1, 2))
+    names = [x for b in bases for x in (b, b, b + "_", b + "_")] + [bases[0] + "a"]
+    ops = []
+    for _ in range(rnd.randint(4, maxlen)):
+        n = rnd.choice(names)
+        r = rnd.random()
+        if not n.endswith("_") and r < 0.22:
+            op = ["Add", n, rnd.choice(MAPS)]
+        elif not n.endswith("_") and r < 0.36:
+            op = ["Rem", n]
+        elif r < 0.42:
+            op = ["Add", n, rnd.choice(POLS)]
+        elif r < 0.47:
+            op = ["Rem", n]
+        elif r < 0.72:
+            op = ["Get", n]
+        elif r < 0.93:
+            op = ["Set", n, rnd.choice(MAP_VALUES)]
+        else:
+            op = ["Del", n]
+        ctx.count("mapped-op:" + op[0] + ("-Map" if op[0] == "Add" and op[2][0] == "Map" else ""))
+        ops.append(op + ["B"] if rnd.random() < 0.15 else op)
+    return dict(h, ops=ops, kind="mapped")
+
+
 def two_instance_history(h, rnd, ctx, maxlen):
     """Operations interleaved on two instances of one class: shared cache, separate traits and values."""
     names = focus_names(h, rnd)
@@ -364,6 +398,19 @@ def corpus():
                    ops=[["Add", "ab", ["Event"]], ["Get", "ab", "B"], ["Set", "ab", 3, "B"], ["Get", "ab"], ["Set", "ab", 101],
                         ["Add", "b", ["Any", 5], "B"], ["Get", "b"], ["Get", "b", "B"], ["Rem", "ab", "B"], ["Rem", "ab"],
                         ["Get", "ab"], ["Get", "ab", "B"]]))
+    # mapped instance trait: the shadow name_ comes and goes with it (seeded change C13-m3)
+    for root in (0, 1, 2):
+        for wild in ([], [["ab_", ["Typed", "VInt", 7]]], [["a_", ["Any", 5]]]):
+            cs.append(dict({"classes": [{"decls": [["a", ["Typed", "VInt", 7]]] + wild, "bases": [root]}], "cls": 3},
+                           kind="corpus",
+                           ops=[["Get", "ab_"], ["Add", "ab", MAPS[0]], ["Get", "ab"], ["Get", "ab_"], ["Set", "ab", 2],
+                                ["Get", "ab_"], ["Set", "ab", 5], ["Rem", "ab"], ["Get", "ab_"], ["Set", "ab_", 1],
+                                ["Get", "ab"], ["Add", "ab", MAPS[1]], ["Get", "ab_"], ["Del", "ab"], ["Rem", "ab"],
+                                ["Get", "ab_"], ["Get", "ab"]]))
+    # a mapped trait declared in the class body (class_traits[name + "_"], has_traits.py l.488-491)
+    cs.append(dict({"classes": [{"decls": [["ab", MAPS[0]]], "bases": [1]}, {"decls": [], "bases": [3]}], "cls": 4},
+                   kind="corpus", ops=[["Get", "ab_"], ["Get", "ab"], ["Set", "ab", 2], ["Get", "ab_"], ["Set", "ab", 101],
+                                       ["Del", "ab"], ["Get", "ab_"], ["Set", "ab_", 5], ["Rem", "ab"], ["Get", "ab_"]]))
     hs = {"classes": [{"decls": [["a_", ["Typed", "VInt", 7]]], "bases": [1]}], "cls": 3}
     cs.append(dict(hs, ops=[["Get", "ab"], ["Add", "ab", ["ReadOnly"]], ["Set", "ab", 1], ["Set", "ab", 2], ["Get", "ab"],
                             ["Rem", "ab"], ["Get", "ab"], ["Set", "ab", 101], ["Get", "b"], ["Set", "b", 1]],
@@ -413,6 +460,7 @@ def run(ctx):
         cases += [random_history(rnd.choice(pool), rnd, ctx, maxlen) for _ in range(nhist)]
         cases += [staged_history(rnd.choice(pool), rnd, ctx, maxlen) for _ in range(nstaged)]
         cases += [two_instance_history(rnd.choice(pool), rnd, ctx, maxlen) for _ in range(nstaged)]
+        cases += [mapped_history(rnd.choice(pool), rnd, ctx, maxlen) for _ in range(2 * nstaged)]
         ctx.count("hierarchies", len(hiers) + len(pool))
     for c in cases:
         ctx.count("case:" + c.get("kind", "replay"))
